@@ -132,6 +132,13 @@ func (c *Conn) Flush() error {
 	return nil
 }
 
+// FlushesSnapshot returns the command names of every flushed batch so far.
+func (c *Conn) FlushesSnapshot() [][]string {
+	c.mu.Lock()
+	defer c.mu.Unlock()
+	return append([][]string{}, c.Flushes...)
+}
+
 func (c *Conn) Receive() (interface{}, error) {
 	c.mu.Lock()
 	defer c.mu.Unlock()
